@@ -71,6 +71,12 @@ end
 
 def wfProg (P : Prog) : Prop := ∀ d ∈ P, wfB d.body = true
 
+/-- the decision procedure the oracle runs on every program -/
+def wfProgB (P : Prog) : Bool := P.all (fun d => wfB d.body)
+
+theorem wfProgB_iff (P : Prog) : wfProgB P = true ↔ wfProg P := by
+  simp [wfProgB, wfProg, List.all_eq_true]
+
 /-! ### the relation -/
 
 /-- a list of optional results -/
